@@ -426,7 +426,7 @@ V("C14", "global-results-consumed", "F", "R6", PRJ, "        result.extend(globa
 VARIANTS.append({"prop": "C14", "id": "C14:benign2-accumulator-helper", "expect": "S", "rule": "", "edits": [
     {"file": PRJ, "old": "        if file_result.contains_info():\n            result.append(file_result)\n",
      "new": "        _add_if_info(result, file_result)\n"},
-    {"file": PRJ, "old": "class Project:\n", "new": "def _add_if_info(acc, info):\n    if info.contains_info():\n        acc.append(info)\n\n\nclass Project:\n"}]})
+    {"file": PRJ, "old": "@attrs.define\nclass Project:\n", "new": "def _add_if_info(acc, info):\n    if info.contains_info():\n        acc.append(info)\n\n\n@attrs.define\nclass Project:\n"}]})
 V2("C20", "undated-line-bypasses-merge", "F", "R3", [(CPP, "            if match is not None:\n                copyright_in.append(", "            if match is not None and match.groupdict()[\"year\"] is None:\n                early.add(line)\n                break\n            if match is not None:\n                copyright_in.append("),
    (CPP, "    copyright_in = []\n", "    copyright_in = []\n    early: set[str] = set()\n"), (CPP, "    return copyright_out\n", "    return copyright_out | early\n")])
 V("C20", "undated-line-dropped", "F", "R3", CPP, "            if match is not None:\n                copyright_in.append(", "            if match is not None and match.groupdict()[\"year\"] is None:\n                break\n            if match is not None:\n                copyright_in.append(")
@@ -533,7 +533,7 @@ for _p in ("C04", "C14"):
     VARIANTS.append({"prop": _p, "id": f"{_p}:benign4-helper-closest", "expect": "S", "rule": "", "edits": [
         {"file": PRJ, "old": "            for closest in global_results[PrecedenceType.CLOSEST]:\n                if file_result.copyright_lines:\n                    closest = closest.copy(copyright_lines=set())\n                else:\n                    closest = closest.copy(spdx_expressions=set())\n                if closest.contains_copyright_or_licensing():\n                    result.append(closest)\n",
          "new": "            _add_missing_half(result, file_result, global_results[PrecedenceType.CLOSEST])\n"},
-        {"file": PRJ, "old": "class Project:\n", "new": "def _add_missing_half(acc, own, candidates):\n    for closest in candidates:\n        if own.copyright_lines:\n            closest = closest.copy(copyright_lines=set())\n        else:\n            closest = closest.copy(spdx_expressions=set())\n        if closest.contains_copyright_or_licensing():\n            acc.append(closest)\n\n\nclass Project:\n"}]})
+        {"file": PRJ, "old": "@attrs.define\nclass Project:\n", "new": "def _add_missing_half(acc, own, candidates):\n    for closest in candidates:\n        if own.copyright_lines:\n            closest = closest.copy(copyright_lines=set())\n        else:\n            closest = closest.copy(spdx_expressions=set())\n        if closest.contains_copyright_or_licensing():\n            acc.append(closest)\n\n\n@attrs.define\nclass Project:\n"}]})
 # ----------------------------------------------------------------- benign multi-hunk refactors kept as patches
 import os as _os
 _BP = _os.path.join(_os.path.dirname(_os.path.abspath(__file__)), "benign_patches")
@@ -651,4 +651,9 @@ V("C08", "annotated-file-read-leniently", "F", "R2", ANP, 'with open(path, "r", 
 V("C14", "duplicate-guard-on-other-container", "F", "R12", R + "project.py", "            if identifier in license_files:\n", "            if identifier in self.licenses:\n")
 V("C10", "blank-copyright-accepted", "F", "R9", CAP, "            if not value.strip():\n", "            if False:\n")
 V("C10", "multi-line-value-accepted", "F", "R9", CAP, "            if len(value.splitlines()) > 1:\n", "            if False:\n")
+# indirection inventory: constructs the rules cannot see through are 'undecided', never a silent pass
+V("C04", "cache-decorator-on-license-path", "U", "", R + "_util.py", "def _determine_license_path(path: StrPath) -> Path:\n", "@__import__(\"functools\").lru_cache(maxsize=None)\ndef _determine_license_path(path: StrPath) -> Path:\n")
+V("C09", "reuseinfo-gets-len", "U", "", R + "__init__.py", "    def __bool__(self) -> bool:\n", "    def __len__(self) -> int:\n        return len(self.spdx_expressions)\n\n    def __bool__(self) -> bool:\n")
+V("C08", "style-overrides-finder", "U", "", R + "comment.py", '    SHORTHAND = "c"\n\n    MULTI_LINE = MultiLineSegments("/*", "*", "*/")\n', '    SHORTHAND = "c"\n\n    @classmethod\n    def comment_at_first_character(cls, text: str) -> str:\n        return super().comment_at_first_character(text)\n\n    MULTI_LINE = MultiLineSegments("/*", "*", "*/")\n')
+V("C02", "import-time-monkeypatch", "U", "", EXP, "_LOGGER = logging.getLogger(__name__)\n", "_LOGGER = logging.getLogger(__name__)\nre.DOTALL_ = re.DOTALL\n")
 
